@@ -382,6 +382,7 @@ impl TCheck for C08 {
             record_events: true,
             hard_fault: hard_err_call.is_some(),
             one_cpu,
+            post: None,
         }
     }
     fn history_oracle(&self, events: &[Event], _report: &BodyReport) -> Vec<String> {
